@@ -482,6 +482,7 @@ def main(run):
         r['samples'] = keep
     viols = []
     n_cmp = 0
+    n_other_encoder = 0
     for i, rec in b_.items():
         cold = a.get(i, {}).get('cold')
         if cold is None:
@@ -491,7 +492,12 @@ def main(run):
         if rec['foreign'] != cold:
             viols.append({'symptom': 'foreign_cache_result_differs', 'spec': cs, 'flags': [], 'where': {},
                           'detail': {'written': cold, 'loaded_in_other_process': rec['foreign']}})
-        if 'fresh' in rec and (rec['fresh']['dvs'] != cold['dvs'] or rec['fresh']['table'] != cold['table']):
+        if 'fresh' in rec and rec['fresh']['encoder'] != cold['encoder']:
+            # which encoder wins depends on which candidates (and their distance-correlation estimates) finish within
+            # the time limit, i.e. on machine load: a different winner in the other process says nothing about the
+            # cache; both codings are checked against the brute force on their own
+            n_other_encoder += 1
+        elif 'fresh' in rec and (rec['fresh']['dvs'] != cold['dvs'] or rec['fresh']['table'] != cold['table']):
             viols.append({'symptom': 'cached_result_differs_from_fresh_computation', 'spec': cs, 'flags': [],
                           'where': {'same_encoder': rec['fresh']['encoder'] == cold['encoder']},
                           'detail': {'cached': cold, 'fresh_in_other_process': rec['fresh']}})
@@ -501,12 +507,14 @@ def main(run):
             viols.append({'symptom': 'cache_key_collision', 'spec': {'settings': sorted(canon)[:2]}, 'flags': [],
                           'where': {}, 'detail': {'key': k, 'n_settings': len(canon)}})
     run.results.append({'evaluations': 0, 'violations': viols, 'nontrivial': [],
-                        'counters': {'monitor_cross_process_comparisons': n_cmp, 'distinct_cache_keys': n_keys}})
+                        'counters': {'monitor_cross_process_comparisons': n_cmp, 'distinct_cache_keys': n_keys,
+                                     'fresh_selection_chose_other_encoder': n_other_encoder}})
     run.finish('generated connector settings (incl. degenerate ones with <=1 connection set and classic patterns): '
                'EncoderSelector with cold / warm cache in one process and, in a second process on the same cache '
                'directory, the cached selection vs a fresh selection with caches bypassed; encoding_timeout in {10 s, '
                '0.25 s, 2 ms}; injected candidate faults (pattern+eager raise, lazy raise, all but enumerating raise, '
-               'every candidate slower than the limit); every returned coding checked against the brute-force matrix '
+               'all but lazy raise, only lazy connection-index left, every candidate slower than the limit); a '
+               'scenario-filtered matrix query first on a cold cache, then selection; every returned coding checked against the brute-force matrix '
                'sets; cache keys of all settings and adversarial near-pairs compared for collisions; non-trivial = '
                'settings with a pattern of >=2 matrices',
                min_nontrivial=10, deciding=['monitor_selection_evaluations', 'monitor_selected_coding_evaluations',
